@@ -1,6 +1,6 @@
 """L9 (bounded indexing) and L11 (aggregator shape) - property C17, and L9 on CRelNoIndex for C20."""
 from facts import walk, callee, children
-from tree import strip, root_local, place_path, cname, lit_bool
+from tree import strip, root_local, place_path, cname, lit_bool, pat_bindings
 from guards import conds_at
 from core import Broken
 
@@ -217,45 +217,74 @@ def check_L11(ctx, rep):
 
     # count: a size_hint shortcut is only taken when lower == upper
     b = fns['count']
-    hint_ids = None
-    for n, _ in walk(b['tree']):
-        if n.get('k') == 'let' and 'i' in n:
-            c = callee(strip(n['i']))
-            if c and cname(c).endswith('Iterator::size_hint') and n['p'].get('k') == 'tup' and len(n['p']['ps']) == 2:
-                lo, hi = n['p']['ps']
-                if lo.get('k') == 'bind' and hi.get('k') == 'bind':
-                    hint_ids = (lo['id'], hi['id'])
-    if hint_ids is not None:
-        lo_id, hi_id = hint_ids
+    hint_calls = [n for n, _ in walk(b['tree']) if n.get('k') in ('mcall', 'call') and callee(n) and cname(callee(n)).endswith('Iterator::size_hint')]
+    if hint_calls:
+        lo_ids, hi_ids = set(), set()
+
+        def bind_hint_pat(pat):
+            """positions of a pattern over the (lower, Option<upper>) pair"""
+            if pat.get('k') == 'tup' and len(pat['ps']) == 2:
+                for bb in pat_bindings(pat['ps'][0]):
+                    lo_ids.add(bb['id'])
+                for bb in pat_bindings(pat['ps'][1]):
+                    hi_ids.add(bb['id'])
+                return True
+            return False
+        whole = set()       # locals holding the whole pair
+        recognised = 0
+        for n, _ in walk(b['tree']):
+            if n.get('k') == 'let' and 'i' in n and strip(n['i']) in hint_calls:
+                if bind_hint_pat(n['p']):
+                    recognised += 1
+                elif n['p'].get('k') == 'bind':
+                    whole.add(n['p']['id']); recognised += 1
+            if n.get('k') == 'match' and (strip(n['e']) in hint_calls or (root_local(strip(n['e'])) or {}).get('id') in whole):
+                for a in n['arms']:
+                    bind_hint_pat(a['p'])
+                recognised += 1
+        if recognised < len(hint_calls):
+            rep.viol('L11', 'aggregators::count', 'size-hint-unrecognised-use', 'size_hint() is consulted in a way the rule does not recognise '
+                     '(fail closed): only `lower == upper` justifies using a hint as the count', loc=cr.loc(hint_calls[0]))
         defs = _defs_of_locals(b['tree'])
-        # locals derived from hi by unwrap_or
-        hi_derived = {hi_id}
-        for lid, init in defs.items():
-            i0 = strip(init)
-            r = root_local(i0['r']) if i0.get('k') == 'mcall' else None
-            if r is not None and r['id'] in hi_derived and i0['m'] in ('unwrap_or', 'unwrap_or_default', 'unwrap_or_else'):
-                hi_derived.add(lid)
+        derived = {'lo': set(lo_ids), 'hi': set(hi_ids)}
+        grew = True
+        while grew:
+            grew = False
+            for lid, init in defs.items():
+                i0 = strip(init)
+                r = root_local(i0['r']) if i0.get('k') == 'mcall' else (root_local(i0) if i0.get('k') == 'path' else None)
+                for side in ('lo', 'hi'):
+                    if r is not None and r['id'] in derived[side] and lid not in derived[side] and \
+                            (i0.get('k') == 'path' or i0['m'] in ('unwrap_or', 'unwrap_or_default', 'unwrap_or_else', 'unwrap', 'clone')):
+                        derived[side].add(lid); grew = True
         uses = 0
         for n, parents in walk(b['tree']):
-            if n.get('k') == 'path' and n.get('res') == 'local' and n['id'] == lo_id:
+            if n.get('k') == 'path' and n.get('res') == 'local' and (n['id'] in derived['lo'] or n['id'] in derived['hi'] or n['id'] in whole):
                 par = parents[-1] if parents else None
-                # uses as an operand of the guarding comparison itself are fine
                 if par is not None and par.get('k') == 'binary' and par['op'] in ('==', '!='):
+                    continue
+                if par is not None and par.get('k') == 'mcall' and strip(par['r']) is n and par['m'] in ('unwrap_or', 'unwrap_or_default', 'unwrap_or_else', 'unwrap', 'clone') \
+                        and any(x.get('k') == 'let' for x in parents[-3:]):
+                    continue            # the defining step of a derived local, not a use as the result
+                if par is not None and par.get('k') == 'match' and strip(par['e']) is n:
                     continue
                 uses += 1
                 ok = False
                 for c, pol in conds_at(parents, n):
                     if c.get('k') == 'binary' and c['op'] == '==' and pol:
                         l, r = strip(c['l']), strip(c['r'])
-                        ids = {l.get('id'), r.get('id')}
-                        if lo_id in ids and (ids & hi_derived):
+                        li, ri = l.get('id'), r.get('id')
+                        if (li in derived['lo'] and ri in derived['hi']) or (li in derived['hi'] and ri in derived['lo']):
                             ok = True
-                rep.inst('L11.count', 'count: size_hint lower bound used %s' % ('under lower==upper' if ok else 'UNGUARDED'))
+                rep.inst('L11.count', 'count: a size_hint bound is used as a value %s' % ('under lower == upper' if ok else 'UNGUARDED'))
                 if not ok:
                     rep.viol('L11', 'aggregators::count', 'size-hint-shortcut',
-                             'the lower bound of size_hint() is used as the count without the test lower == upper', loc=cr.loc(n))
+                             'a bound of size_hint() is used as the count without the test lower == upper: iterators with an inexact hint '
+                             '(filter, take_while, chars, ..) are over- or under-counted', loc=cr.loc(n))
         if uses == 0:
             rep.inst('L11.count', 'count: size_hint not used as result')
+        if not any('Iterator::count' in x for x in names(b)):
+            rep.viol('L11', 'aggregators::count', 'no-exact-count', 'no path of `count` counts the input with Iterator::count')
     else:
         if not any('Iterator::count' in x for x in names(b)):
             raise Broken('aggregators::count: neither size_hint shortcut nor Iterator::count found')
